@@ -350,3 +350,53 @@ func Verif_C17_U4_LimitingTwoCallers() { verifTwoCallers(verifLimit) }
 //
 // symgo: tier=thorough maxpaths=600000
 func Verif_C17_U4_QueuedTwoCallers() { verifTwoCallers(verifQueued) }
+
+// Verif_C17_U4_DeduplicatingThreeCallers: three concurrent callers for the same
+// object whose first copy fails (so that TWO callers are waiting when the leader
+// gives up): never two copies of the object in flight, exactly the successful
+// callers saw the object in the sink. Schedules with at most two preemptions
+// (switches forced by blocking are free).
+//
+// symgo: maxpaths=400000
+func Verif_C17_U4_DeduplicatingThreeCallers() {
+	vnd.ExploreSchedules(true)
+	vnd.PreemptionBound(2)
+	ctx := context.Background()
+	objs := verifstub.Universe("inst", 2)
+	sink := &verifBareSink{objs: objs, present: make([]bool, 2)}
+	gate := &verifGate{base: verifBareCopy{sink}, objs: objs, inFlight: make([]int, 2), maxFlight: make([]int, 2)}
+	gate.failFirst = true
+	br := NewDeduplicatingBlobReplicator(gate, sink, digest.KeyWithoutInstance)
+	set := objs[1].Digest.ToSingletonSet()
+	const n = 3
+	errs := make([]error, n)
+	held := make([]bool, n)
+	done := make(chan struct{}, n)
+	call := func(c int) {
+		errs[c] = br.ReplicateMultiple(ctx, set)
+		held[c] = sink.present[1]
+		done <- struct{}{}
+	}
+	go call(0)
+	go call(1)
+	call(2)
+	for i := 0; i < n; i++ {
+		<-done
+	}
+	for i := range objs {
+		vnd.Assert(gate.maxFlight[i] <= 1, "two copies of the same object in flight through the deduplicating replicator")
+	}
+	nOK := 0
+	for c := 0; c < n; c++ {
+		if errs[c] == nil {
+			nOK++
+			vnd.Assert(held[c], "a caller was told the object is replicated before the sink held it")
+		}
+	}
+	vnd.Assert(nOK == n-1, "after one failed copy exactly the other callers must succeed")
+	vnd.Assert(sink.present[1], "the retry did not copy the object")
+	if dd, ok := br.(*deduplicatingBlobReplicator); ok {
+		vnd.Assert(len(dd.inFlightReplications) == 0, "in-flight table not empty after all callers returned")
+	}
+	vnd.Cover("u4-three-callers")
+}
